@@ -19,7 +19,11 @@ def parse_data(content, type_code):
 
     raw = np.frombuffer(content, dtype)
     if type_code == "C*8":
-        return raw["real"] + 1j * raw["imag"]
+        # assign the components: arithmetic would turn (x, inf) into (nan, inf)
+        data = np.empty(raw.shape, dtype="complex64")
+        data.real = raw["real"]
+        data.imag = raw["imag"]
+        return data
     return raw
 
 
